@@ -3,22 +3,24 @@
 # generated-program crates (warm caches; every check rebuilds what it needs from /repo anyway).
 set -e
 cd "$(dirname "$0")"
+V="$PWD"
 export CARGO_NET_OFFLINE=true
 mkdir -p .build evidence replays
 python3 translators/extract_clean_pairs.py
 # the schema translator needs the schema harness built first
 cp /repo/Cargo.lock harness/schema/Cargo.lock 2>/dev/null || true
-(cd harness/schema && cargo build --offline --quiet)
-python3 translators/schema_to_lean.py
+(cd harness/schema && CARGO_TARGET_DIR="$V/.build/sch" cargo build --offline --quiet)
+"$V/.build/sch/debug/sch" schema > "$V/.build/schema.json"
+python3 translators/schema_to_lean.py "$V/.build/schema.json"
 (cd lean && lake build SIM driver)
 for p in lean/SIM/Props/*.lean; do m=$(basename "$p" .lean); (cd lean && lake build "SIM.Props.$m") ; done
 cp /repo/Cargo.lock harness/rt/Cargo.lock 2>/dev/null || true
-(cd harness/rt && cargo build --offline --quiet && CARGO_TARGET_DIR=/verif/.build/rt-docs cargo build --offline --quiet --features docs)
+(cd harness/rt && CARGO_TARGET_DIR="$V/.build/rt" cargo build --offline --quiet && CARGO_TARGET_DIR="$V/.build/rt-docs" cargo build --offline --quiet --features docs)
 python3 harness/gen/gen_std.py --seed 1 --n 20 --out harness/progs/pg/src/gen_std.rs 2>/dev/null
 python3 harness/gen/gen_derive.py --seed 1 --n 10 --out harness/progs/pg/src/gen_derive.rs 2>/dev/null
 cp /repo/Cargo.lock harness/progs/pg/Cargo.lock 2>/dev/null || true
-(cd harness/progs/pg && cargo build --offline --quiet && CARGO_TARGET_DIR=/verif/.build/pg-docs cargo build --offline --quiet --features docs)
+(cd harness/progs/pg && CARGO_TARGET_DIR="$V/.build/pg" cargo build --offline --quiet && CARGO_TARGET_DIR="$V/.build/pg-docs" cargo build --offline --quiet --features docs)
 cp /repo/Cargo.lock harness/progs/ng/Cargo.lock 2>/dev/null || true
 mkdir -p harness/progs/ng/src/bin
-(cd harness/progs/ng && cargo check --offline --lib --quiet)
+(cd harness/progs/ng && CARGO_TARGET_DIR="$V/.build/ng" cargo check --offline --lib --quiet)
 echo setup-ok
